@@ -91,7 +91,7 @@ SP_HARNESSES = [
      'rungs': {'quick': [{'bound': 'containing VBK heights (2,3) or (3,2) for the two forks; history setState(B), setState(A), comparePopScore(A,B), setState(A)', 'timeout': 250}], 'thorough': [{'bound': 'as quick', 'timeout': 600}]}},
 ]
 FIN_HARNESSES = [
-    {'name': 'h_realfin', 'src': 'real/h_realfin.cpp', 'entry': 'h_realfin', 'repo_srcs': srcsets_real.REAL, 'covers': [1, 2, 3], 'jobs': 8,
+    {'name': 'h_realfin', 'src': 'real/h_realfin.cpp', 'entry': 'h_realfin', 'repo_srcs': srcsets_real.REAL, 'covers': [1, 2, 3, 4], 'jobs': 8,
      'obligations': ['REAL AltBlockTree: an instance that finalizes (ALT -> VBK -> BTC cascade, blocks deallocated) gives the same validity result, activation result and tip for the next block as a twin that never finalizes',
                      'REAL AltBlockTree: a payload id first seen in a block that has since been finalized and deallocated still makes a later block carrying it invalid; finalized blocks stay on the active chain'],
      'rungs': {'quick': [{'defines': ['LCH=6'], 'bound': 'linear ALT chain of 6 blocks, VBK context (1..2 blocks) in block 1 or 2, next block re-uses VBK block 2/3 or nothing, maxReorg 1..2, preserve 0..2', 'timeout': 250}],
